@@ -186,7 +186,8 @@ CHECKS.update({
                   'NewPartSetFromData / reassembly brute-forced on the real code; consensus slice: in the proposal-taking situations of '
                   'PeerInput.tla (TLC) the real ConsensusState gets a Byzantine same-header-other-body block, then +2/3 prevotes and precommits '
                   'for the genuine BlockID before any genuine part (driver peerinput): ProposalBlock must be the block decoded from the '
-                  'complete voted part set',
+                  'complete voted part set; plus the Tendermint.tla directed schedule own_parts_after_commit_for_other followed by TLC and '
+                  'replayed on real nodes (csim), proposal block / part-set projection compared after every action',
         level=('model_checking',
                'TLC proves ProofComplete and ProofSound (no leaf, index in [-n-1,n+1] or single-field proof mutation other than the genuine one '
                'verifies under the genuine total) for trees of 1-10 leaves, and OnlyGenuineAccepted, RejectLeavesSetUnchanged, StoredGenuine, '
